@@ -24,7 +24,7 @@ for d in sorted(glob.glob('/verif/seeded/*/')):
             continue
         subprocess.run(f"git -C {MR} apply {patch} 2>/dev/null || git -C {MR} apply -3 {patch}", shell=True, capture_output=True)
         p = subprocess.run(f"{MV}/check {c} quick", shell=True, capture_output=True, text=True, errors='replace', env=ENV)
-        subprocess.run(f"git -C {MR} checkout -- . ; git -C {MR} reset -q", shell=True)
+        subprocess.run(f"git -C {MR} reset -q; git -C {MR} checkout -- .", shell=True)
         clauses = sorted(set(re.findall(r"clause=(\S+)", p.stdout)))
         res[c] = {'applies': True, 'exit': p.returncode, 'violations': len(re.findall(r"^VIOLATION", p.stdout, re.M)), 'clauses': clauses}
     meta['detected_by'] = res
